@@ -144,7 +144,7 @@ func (en *Engine) cpsCallee(u *UnitInfo, call *ast.CallExpr) (string, bool) {
 func (en *Engine) scanTailCalls(pkg string) (bool, string) {
 	var bad []string
 	for _, u := range en.prog.Units {
-		if u.Pkg.Name != pkg || u.Lit == nil || u.Key == "mkNextRecv#0" {
+		if u.Pkg.Name != pkg || u.Lit == nil || isDriverLit(u) {
 			continue
 		}
 		var checkList func(list []ast.Stmt, tail bool)
@@ -686,4 +686,18 @@ func (en *Engine) scanNoMapIteration() (bool, string) {
 		return false, strings.Join(bad, "; ")
 	}
 	return true, ""
+}
+
+// isDriverLit: a closure of the driver shape `func(V) *step[V]` (the type next[V]): it runs a Seq and then reads the step the
+// Seq may have recorded - the one place where a CPS call is followed by more code (the trampoline every yield unwinds to).
+func isDriverLit(u *UnitInfo) bool {
+	if u.Sig == nil || u.Sig.Results().Len() != 1 {
+		return false
+	}
+	pt, ok := u.Sig.Results().At(0).Type().(*types.Pointer)
+	if !ok {
+		return false
+	}
+	n, ok := types.Unalias(pt.Elem()).(*types.Named)
+	return ok && n.Obj().Name() == "step"
 }
